@@ -79,6 +79,9 @@ type State struct {
 	Locals []Term
 	// HeldW: mutexes (struct fields) held exclusively on every path to this point
 	HeldW []heldRec
+	// Parts: the disjuncts of Reach when this state merges several incoming paths (valid while Reach.S == PartsOf)
+	Parts   []Term
+	PartsOf string
 }
 
 func (s *State) clone() *State {
@@ -86,7 +89,7 @@ func (s *State) clone() *State {
 	for k, v := range s.Heap {
 		h[k] = v
 	}
-	return &State{Reach: s.Reach, Heap: h, Epoch: s.Epoch, Locals: append([]Term{}, s.Locals...), HeldW: append([]heldRec{}, s.HeldW...)}
+	return &State{Reach: s.Reach, Heap: h, Epoch: s.Epoch, Locals: append([]Term{}, s.Locals...), HeldW: append([]heldRec{}, s.HeldW...), Parts: s.Parts, PartsOf: s.PartsOf}
 }
 
 type loopInfo struct {
@@ -665,7 +668,8 @@ func (f *FnVC) mergeStates(es []edge) *State {
 	for _, e := range es {
 		conds = append(conds, e.cond)
 	}
-	st := &State{Reach: f.SC.Define("reach", or(conds...)), Heap: map[string]Term{}, Epoch: es[0].state.Epoch}
+	st := &State{Reach: f.SC.Define("reach", or(conds...)), Heap: map[string]Term{}, Epoch: es[0].state.Epoch, Parts: conds}
+	st.PartsOf = st.Reach.S
 	for _, l := range es[0].state.Locals {
 		inAll := true
 		for _, e := range es[1:] {
